@@ -222,14 +222,21 @@ def base_method(method):
     return {"auto:image": "average", "auto:segmentation": "stride"}.get(method, method)
 
 
-def run_case(R, np, method, dt, shape, f, outside, raws, mrep, sreps, record=True):
-    """returns number of problems found"""
+def run_case(R, np, method, dt, shape, f, outside, raws, mrep, sreps, record=True, pool=None, group="",
+             prior=None):
+    """One downscale call.  pool: {key: [downscaler object, descriptors of its last
+    calls]} -- ONE object per (method, options, group) is used for all the cases
+    of a run, whatever their dtype, as a script looping over datasets would do;
+    the descriptors travel with the case so that a replay repeats the history.
+    Returns the number of problems found."""
     from harness.common import outcome_of, model_outcome
     from neuroglancer_scripts.downscaling import get_downscaler
     rng = R.rng
     problems = 0
     case = {"method": method, "dtype": dt, "shape": list(shape), "factors": list(f),
             "outside": outside, "values": raws}
+    if pool is None:
+        pool = {}
     arr, lay = make_array(np, rng, dt, raws, shape)
     before = K.from_array(np, arr)
     call_method = method
@@ -238,15 +245,36 @@ def run_case(R, np, method, dt, shape, f, outside, raws, mrep, sreps, record=Tru
     if method == "average" and outside is None and len(raws) % 2:
         opts = {}                     # a missing option means edge padding, too
 
-    def call():
+    def make():
         if call_method.startswith("auto:"):
-            ds = get_downscaler("auto", info={"type": call_method[5:]}, options=opts)
-        else:
-            ds = get_downscaler(method, options=opts)
+            return get_downscaler("auto", info={"type": call_method[5:]}, options=opts)
+        return get_downscaler(method, options=opts)
+    key = (call_method, repr(outside), bool(opts) or method != "average", group)
+    if key not in pool:
+        ds_new = make()
+        for pc in (prior or []):          # replay: repeat what this object had processed before
+            try:
+                with np.errstate(all="ignore"):
+                    ds_new.downscale(K.to_array(np, pc["dtype"], pc["values"], tuple(pc["shape"])),
+                                     tuple(pc["factors"]))
+            except Exception:  # noqa: BLE001
+                pass
+        pool[key] = [ds_new, list(prior or [])]
+    ds, hist = pool[key]
+    if hist:
+        case["prior"] = list(hist)
+    hist.append({"dtype": dt, "shape": list(shape), "factors": list(f), "values": raws})
+    del hist[:-2]
+    kept = []
+
+    def call():
         with np.errstate(all="ignore"):
             res = ds.downscale(arr, tuple(f))
+        kept.append(res)
         return [res.dtype.name, list(res.shape), K.from_array(np, res)]
     impl = outcome_of(call)
+    if kept and impl[0] == "ok" and "kept" in pool:
+        pool["kept"].append((kept[0], impl[1][2], case))
     if K.from_array(np, arr) != before:
         R.violation("downscale modified its input", case, {})
         problems += 1
@@ -282,7 +310,8 @@ def run_case(R, np, method, dt, shape, f, outside, raws, mrep, sreps, record=Tru
     # ---- property
     want_shape = [shape[0], cdiv(shape[1], f[2]), cdiv(shape[2], f[1]), cdiv(shape[3], f[0])]
     if shp != want_shape or dtn != dt:
-        R.violation("shape is not ceil(size/factor) or dtype changed", case, {"shape": shp, "dtype": dtn})
+        R.violation("shape is not ceil(size/factor) or dtype changed", case,
+                    {"shape": shp, "dtype": dtn, "want_shape": want_shape, "want_dtype": dt})
         return problems + 1
     if method == "stride":
         _, want = ref_stride(raws, shape, f)
@@ -415,6 +444,24 @@ def gen_cases(R):
             if dt == "float32":
                 raws = [0 if b == 0x80000000 else b for b in raws]
             cases.append((method, dt, sh, f, rng.choice(OUTSIDE) if method == "average" else None, raws, "badfactor"))
+    # ONE downscaler object across chunks of different data types, in several orders:
+    # the later chunks hold values the earlier types cannot represent and fractional means
+    def seq_values(dt, n):
+        if dt == "float32":
+            base = [1.5, 2.25, 300.5, 70000.25, 0.5, 3.0e9, 127.5, 7.0]
+            return [K.f32_bits(base[k % len(base)]) for k in range(n)]
+        hi = K.irange(dt)[1]
+        base = [1, 2, hi, hi - 1, 255, 256, 3000, 65535, 65536, 70001, 7, 4]
+        return [min(hi, base[k % len(base)]) for k in range(n)]
+    orders = [NG, NG[::-1], ["float32", "uint8", "uint64", "uint16", "uint32"],
+              ["uint16", "uint8", "float32", "uint8", "uint32", "uint64"]]
+    for oi, order in enumerate(orders):
+        for method in ("average", "auto:image", "majority", "stride"):
+            for ov in ((None, 1.5) if base_method(method) == "average" else (None,)):
+                for k, dt in enumerate(order):
+                    sh = (1, 2, 2 + (k % 2), 4)
+                    cases.append((method, dt, sh, [2, 2, 1] if k % 2 else [2, 1, 2], ov,
+                                  seq_values(dt, sh[1] * sh[2] * sh[3]), f"seq{oi}"))
     # get_downscaler("auto"): image -> average, segmentation -> stride
     for k in range(40 if quick else 1500):
         dt = NG[k % 5]
@@ -454,10 +501,12 @@ def run(R):
     step = 400
     for s in range(0, len(reqs), step):
         reps += R.model.batch(reqs[s:s + step])
+    pool = {"kept": []}
     for (method, dt, sh, f, ov, raws, mode), (pos, ns) in zip(cases, index):
         mrep = reps[pos]
         sreps = reps[pos + 1: pos + 1 + ns]
-        run_case(R, np, method, dt, sh, f, ov, raws, mrep, sreps)
+        run_case(R, np, method, dt, sh, f, ov, raws, mrep, sreps, pool=pool,
+                 group=mode if mode.startswith("seq") else "")
         nontriv = len(f) == 3 and any(x > 1 for x in f if isinstance(x, int)) and len(set(raws)) >= 2
         R.case({"method": method, "dtype": dt, "shape": list(sh), "factors": f, "outside": ov,
                 "values": raws[:32]}, nontrivial=nontriv)
@@ -468,6 +517,13 @@ def run(R):
         for d in sh[1:]:
             R.count("axis-size:" + ("1" if d == 1 else "odd" if d % 2 else "even"))
         R.traces += len(raws)
+    # results handed out earlier must not have been touched by later calls
+    for res, snap, c in pool["kept"]:
+        if K.from_array(np, res) != snap:
+            R.violation("a result returned earlier was changed by a later call on the same downscaler", c,
+                        {"was": snap[:8], "now": K.from_array(np, res)[:8]})
+            break
+    R.extra["downscaler_objects"] = len(pool) - 1
     # the extracted guard of the uint64 averaging findings against the harness's predicate
     u64 = [c for c in cases if base_method(c[0]) == "average" and c[1] == "uint64"]
     from harness.common import Atom
@@ -490,5 +546,5 @@ def replay(R, payload):
                                    case["outside"], case["values"])
     req, spec = model_requests(method, dt, sh, f, ov, raws)
     reps = R.model.batch([req] + spec)
-    n = run_case(R, np, method, dt, sh, f, ov, raws, reps[0], reps[1:], record=False)
+    n = run_case(R, np, method, dt, sh, f, ov, raws, reps[0], reps[1:], record=False, prior=case.get("prior"))
     return bool(n or R.violations or R.disagreements)
